@@ -62,10 +62,21 @@ func c18Inputs() []c18Input {
 	one.Add(nid(0), EX+"T").P(EX+"p1", "v").P(EX+"p2", "a")
 	one.Add(nid(1), EX+"T").P(EX+"p2", "a")
 	many := TruthTableGraph(4, false)
+	// a second long document whose report has the SAME LENGTH as the first and differs only late: the node reported
+	// last gets another id of the same length
+	manyText := many.FlatJSONLD()
+	many2Text := manyText
+	if r := Validate(seedProfilePlain, manyText); r.Err == nil && r.Panic == nil {
+		if rep, err := ParseReport(r.Report); err == nil && len(rep.Results) > 0 {
+			last := rep.Results[len(rep.Results)-1].Focus
+			many2Text = strings.ReplaceAll(manyText, "\""+last+"\"", "\""+last[:len(last)-1]+"x\"")
+		}
+	}
 	return []c18Input{
 		{"conforming", seedProfilePlain, conf.FlatJSONLD(), true, true},
 		{"one-violation", seedProfilePlain, one.FlatJSONLD(), true, true},
-		{"many-violations", seedProfilePlain, many.FlatJSONLD(), true, true},
+		{"many-violations", seedProfilePlain, manyText, true, true},
+		{"many-violations-same-length", seedProfilePlain, many2Text, true, true},
 		{"profile-error", "profile: x\nprefixes: {ex: http://ex.org/}\nviolation: [v]\nvalidations:\n  v:\n    targetClass: nope.T\n    propertyConstraints:\n      ex.p: {minCount: 1}\n", conf.FlatJSONLD(), false, true},
 		{"profile-not-yaml", "profile: [unclosed\n", conf.FlatJSONLD(), false, true},
 		{"data-error", seedProfilePlain, "not json", true, false},
@@ -78,7 +89,7 @@ func c18Inputs() []c18Input {
 func init() {
 	Register(Meta{
 		ID: "C18", Level: "model_checking",
-		Rule: "state = (kind, mode, content) of the OUTPUT path; initial states: absent, empty file, short junk, long junk (longer than any report), read-only file, directory, missing parent directory; transitions = one run of the built acv: `validate P D OUT` and `validate P D` for 8 (P,D) inputs (conforming/short report, one violation, many violations/long report, two profile errors, two data errors, empty graph), missing input files, `generate P`, `normalize D`, `compile P`, wrong argument counts, unknown command. Breadth-first to a fixpoint of the canonical state set (content hashed with the dateCreated value masked). Oracle per transition: the library called in-process on the same texts (report modulo the dateCreated value, which must be RFC3339 within the invocation's wall-clock window; generated code after a counter reset; normalised input); failures: non-zero exit and empty stdout.",
+		Rule:        "state = (kind, mode, content) of the OUTPUT path; initial states: absent, empty file, short junk, long junk (longer than any report), read-only file, directory, missing parent directory; transitions = one run of the built acv: `validate P D OUT` and `validate P D` for 8 (P,D) inputs (conforming/short report, one violation, many violations/long report, two profile errors, two data errors, empty graph), missing input files, `generate P`, `normalize D`, `compile P`, wrong argument counts, unknown command. Breadth-first to a fixpoint of the canonical state set (content hashed with the dateCreated value masked). Oracle per transition: the library called in-process on the same texts (report modulo the dateCreated value, which must be RFC3339 within the invocation's wall-clock window; generated code after a counter reset; normalised input); failures: non-zero exit and empty stdout.",
 		Assumptions: []string{"the sandbox runs as root, so a read-only output file is writable (that state is explored but behaves like a plain file)"},
 	}, func(tier string, emit func(c18Case)) {
 		emit(c18Case{Init: []string{"absent", "empty", "short", "long", "readonly", "dir", "noparent"}})
@@ -228,54 +239,69 @@ func c18Run(c *Ctx, cs c18Case) {
 		if d > maxDepth {
 			maxDepth = d
 		}
-		// --- transitions that write OUT
-		for i, in := range inputs {
-			n++
-			dir := filepath.Join(base, fmt.Sprintf("w%d", n))
-			os.Mkdir(dir, 0o755)
-			out := c18Materialise(dir, st)
-			r := c18Exec(dir, "validate", files[fmt.Sprintf("p%d", i)], files[fmt.Sprintf("d%d", i)], out)
-			transitions++
-			c.Eval(1)
-			after := c18Observe(out, st.Kind == "noparent")
-			where := fmt.Sprintf("validate %s OUT, prior state %s (depth %d)", in.name, st.describe(), d)
-			if refs[i].ok && (st.Kind == "absent" || st.Kind == "file") {
-				if r.exit != 0 {
-					bad("validate to a writable output path fails", fmt.Sprintf("%s: exit %d", where, r.exit))
-				} else {
-					got, dateProblem := c18CheckDate(string(after.Content), r.t0, r.t1)
-					if got != refs[i].report {
-						sig := "output file differs from the library's report"
-						if strings.HasPrefix(got, refs[i].report) {
-							sig = "output file holds the report followed by bytes of its previous content"
+		// --- transitions that write OUT. A state that holds an earlier report is materialised twice: with its
+		// original dateCreated and re-stamped with the current second (a report written moments ago is a legitimate
+		// prior state, and the CLI offers no clock seam to produce it otherwise).
+		variants := []c18State{st}
+		if st.Kind == "file" && dateRe.Match(st.Content) {
+			now := []byte(`"dateCreated": "` + time.Now().Format(time.RFC3339) + `"`)
+			variants = append(variants, c18State{Kind: st.Kind, Mode: st.Mode, Content: dateRe.ReplaceAll(st.Content, now)})
+		}
+		for vi, stv := range variants {
+			for i, in := range inputs {
+				st := stv
+				if vi == 1 {
+					// refresh the stamp right before each invocation
+					now := []byte(`"dateCreated": "` + time.Now().Format(time.RFC3339) + `"`)
+					st = c18State{Kind: stv.Kind, Mode: stv.Mode, Content: dateRe.ReplaceAll(stv.Content, now)}
+				}
+				n++
+				dir := filepath.Join(base, fmt.Sprintf("w%d", n))
+				os.Mkdir(dir, 0o755)
+				out := c18Materialise(dir, st)
+				r := c18Exec(dir, "validate", files[fmt.Sprintf("p%d", i)], files[fmt.Sprintf("d%d", i)], out)
+				transitions++
+				c.Eval(1)
+				after := c18Observe(out, st.Kind == "noparent")
+				where := fmt.Sprintf("validate %s OUT, prior state %s (depth %d)", in.name, st.describe(), d)
+				if refs[i].ok && (st.Kind == "absent" || st.Kind == "file") {
+					if r.exit != 0 {
+						bad("validate to a writable output path fails", fmt.Sprintf("%s: exit %d", where, r.exit))
+					} else {
+						got, dateProblem := c18CheckDate(string(after.Content), r.t0, r.t1)
+						if got != refs[i].report {
+							sig := "output file differs from the library's report"
+							if strings.HasPrefix(got, refs[i].report) {
+								sig = "output file holds the report followed by bytes of its previous content"
+							}
+							bad(sig, fmt.Sprintf("%s\n%s", where, firstDiff(refs[i].report, got)))
+						} else if dateProblem != "" {
+							bad("dateCreated", where+": "+dateProblem)
 						}
-						bad(sig, fmt.Sprintf("%s\n%s", where, firstDiff(refs[i].report, got)))
-					} else if dateProblem != "" {
-						bad("dateCreated", where+": "+dateProblem)
+						if r.stdout != "" {
+							bad("validate with an output path prints to stdout", where+": "+tailStr(r.stdout, 200))
+						}
 					}
-					if r.stdout != "" {
-						bad("validate with an output path prints to stdout", where+": "+tailStr(r.stdout, 200))
+				} else if !refs[i].ok {
+					if r.exit == 0 {
+						bad("failing validation exits 0", where)
+					}
+					if strings.TrimSpace(r.stdout) != "" {
+						bad("failing validation prints to stdout", where+": "+tailStr(r.stdout, 200))
+					}
+				} else { // dir / noparent: the write cannot succeed
+					if r.exit == 0 {
+						bad("validate exits 0 although the output path cannot be written", where)
 					}
 				}
-			} else if !refs[i].ok {
-				if r.exit == 0 {
-					bad("failing validation exits 0", where)
+				c.Outcome(fmt.Sprintf("validate-out %s from %s exit0=%v", in.name, st.Kind, r.exit == 0))
+				if !seen[after.key()] {
+					seen[after.key()] = true
+					depthOf[after.key()] = d + 1
+					frontier = append(frontier, after)
 				}
-				if strings.TrimSpace(r.stdout) != "" {
-					bad("failing validation prints to stdout", where+": "+tailStr(r.stdout, 200))
-				}
-			} else { // dir / noparent: the write cannot succeed
-				if r.exit == 0 {
-					bad("validate exits 0 although the output path cannot be written", where)
-				}
+				os.RemoveAll(dir)
 			}
-			c.Outcome(fmt.Sprintf("validate-out %s from %s exit0=%v", in.name, st.Kind, r.exit == 0))
-			if !seen[after.key()] {
-				seen[after.key()] = true
-				depthOf[after.key()] = d + 1
-				frontier = append(frontier, after)
-			}
-			os.RemoveAll(dir)
 		}
 		// --- transitions that do not touch OUT are explored once per state as well (they must leave it alone)
 		if d == 0 {
